@@ -176,7 +176,8 @@ def runScenario (tp : TimeParser τ) (x : Sexp) : String :=
     let roots := ((field fields "roots").getD []).map (fun r => match r with
       | .list (.atom "prog" :: ss) => ss.map (parseStmt tp)
       | _ => [])
-    let w0 := initWorld { debug := debug } start decls roots
+    let till : Option τ := ((field fields "till").bind List.head?).map (tm tp)
+    let w0 := initWorld { debug := debug } start decls roots till
     let (w, finished) := w0.runFuel (num "fuel" 200000)
     -- waiters whose condition holds although nobody will wake them any more
     let w := if w.crashed.isNone && finished then
